@@ -1,5 +1,5 @@
 (* C12 — thread-local systems. Statements only; proofs in PlanProps.v / ExecPlan.v. *)
-From Shred Require Import Base SrcParams Plan PlanObs PlanLemmas PlanInv PlanLoc PlanBuild PlanProps Exec ExecProps ExecPlan.
+From Shred Require Import Base SrcParams Plan PlanObs PlanLemmas PlanInv PlanLoc PlanBuild PlanProps Exec ExecProps ExecPlan BatchProps OracleProps.
 
 (* the thread-local list of the built dispatcher is exactly the thread-local registrations,
    in registration order, whatever else is registered around them *)
@@ -36,6 +36,12 @@ Theorem C12_sendable_iff_no_thread_locals :
   forall rs b, plan rs = Ok b -> (sendable b = true <-> tl_tags rs = []).
 Proof. exact sendable_iff. Qed.
 Print Assumptions C12_sendable_iff_no_thread_locals.
+
+(* the oracle on the REAL outcome of try_into_sendable holds for the model's answer *)
+Theorem C12_oracle_sendable_holds_on_model :
+  forall rs b, plan rs = Ok b -> o_sendable rs (sendable b) = true.
+Proof. exact o_sendable_on_model. Qed.
+Print Assumptions C12_oracle_sendable_holds_on_model.
 
 Example C12_example :
   let rs := [RTL 7; RSys 1 [] [] [] [8] 3%Z; RBarrier; RTL 8; RSys 2 [] [] [8] [] 3%Z] in
